@@ -53,6 +53,7 @@ class Translator:
         self.nthreads = spec.get('threads', 0)
         self.fiber_mode = spec.get('fibers', False)
         self.top_sites = []
+        self.set_use = {}
 
     # ============================================================ module-level preparation
     def reachable(self, roots):
@@ -124,7 +125,8 @@ class Translator:
                 o = self.new_obj('@' + g, size, info['type'], 'global', init=info['init'])
             self.gaddr[g] = o
         for f in funcs:
-            self.fn_ids[f] = (0xF0000 + len(self.fn_ids)) << 4
+            if f not in self.fn_ids:
+                self.fn_ids[f] = (0xF0000 + len(self.fn_ids)) << 4
 
     def fn_addr(self, name):
         if name in self.fn_ids:
@@ -258,10 +260,17 @@ class Translator:
         pools come from the harness spec; allocas get one object per (site, thread that can reach it)."""
         if self.mode == 'native':
             return
-        for k, rec in enumerate(self.init_objects or []):
+        snap = self.init_objects or {'nstatic': len(self.objs), 'objects': []}
+        if snap['nstatic'] != len(self.objs):
+            raise IRError('native pre-run and cbmc translation disagree on the static objects')
+        for k, rec in enumerate(snap['objects']):
+            if k < snap['nstatic']:
+                self.objs[k].snap = rec['cells']
+                continue
             s = self.sites_by_name()[rec['site']]
-            o = self.new_obj('init%d:%s' % (k, rec['site']), rec['size'], s['ty'], 'heap', tid=0, site=s['id'],
-                             dies=rec.get('freed_possible', True), arr=True)
+            o = self.new_obj('init%d:%s' % (k, rec['site']), rec['size'], s['ty'], 'heap', tid=0, site=s['id'], dies=True, arr=True)
+            o.snap = rec['cells']
+            o.init_live = rec['live']
             s.setdefault('init_objs', []).append(o)
         # concurrent pools: spec['pools'] = [[site-regex, tid, count, size_bytes], ...]
         for rx, tid, count, size in self.spec.get('pools', []):
@@ -460,6 +469,7 @@ class Translator:
             sig_ty = 'arr:' + tstr(cur)
         sig_off = 0
         first = True
+        named = cur[0] == 'named' and r0[0] == 'lit'
         for it, iv in idxs:
             if first:
                 first = False
@@ -477,6 +487,10 @@ class Translator:
                 cur = r[2]
             else:
                 raise IRError('gep into %r' % (cur,))
+            if not named and cur[0] == 'named' and self.T.resolve(cur)[0] == 'lit':
+                # source type was an array / literal: use the first named struct on the path
+                named = True
+                sig_ty, sig_off = cur[1], 0
         parts = [p for p in parts if p not in ('0', '0UL')]
         return '(' + ' + '.join(parts or ['0UL']) + ')', (sig_ty, sig_off), cur
 
@@ -649,8 +663,14 @@ class Translator:
                 for h in re.findall(r'@("[^"]+"|[\w.$-]+)', info['init']):
                     self.addr_taken.add(h.strip('"'))
 
-    def site_set(self, fname, ptr_ty, opnd):
+    def site_set(self, fname, ptr_ty, opnd, kind='rw'):
         """candidate-set id for an access through `opnd`"""
+        sid = self.site_set0(fname, ptr_ty, opnd)
+        if not isinstance(sid, str):
+            self.set_use.setdefault(sid, set()).add((fname, kind))
+        return sid
+
+    def site_set0(self, fname, ptr_ty, opnd):
         if self.mode == 'native':
             return 0
         sig = self.addr_sig(fname, ptr_ty, opnd)
@@ -685,6 +705,63 @@ class Translator:
                 if o.sigs[c] & tysigs:
                     out.append((o, c))
         return out
+
+
+def classify_cells(tr, funcs):
+    """per cell: 'ro' (no concurrent-phase writer), ('excl', t) (only thread t touches it concurrently), 'shared'.
+    Thread 0 = vm_setup (before the spawns) and vm_final (after all threads finished)."""
+    reach = {}
+    roots0 = [r for r in ('vm_setup', 'vm_final') if r in tr.m.funcs]
+    reach[0] = set(tr.reachable(roots0))
+    for t in range(1, tr.nthreads + 1):
+        reach[t] = set(tr.reachable(['vm_thread_%d' % t] + tr.spec.get('thread_roots', {}).get(str(t), [])))
+    if tr.spec.get('all_threads_reach_all'):
+        for t in range(1, tr.nthreads + 1):
+            reach[t] = set(funcs)
+    readers, writers = {}, {}
+    setup_written = set()
+    setup_funcs = set(tr.reachable(['vm_setup'])) if 'vm_setup' in tr.m.funcs else set()
+    for sid, uses in tr.set_use.items():
+        key = tr.set_keys[sid]
+        cells = [(o.oid, c) for o, c in tr.cells_for_key(key)]
+        for fname, kind in uses:
+            ths = {t for t in reach if fname in reach[t]}
+            for cell in cells:
+                if 'r' in kind:
+                    readers.setdefault(cell, set()).update(ths)
+                if 'w' in kind:
+                    writers.setdefault(cell, set()).update(ths)
+                    if fname in setup_funcs:
+                        setup_written.add(cell)
+    # liveness ghosts only for objects that concurrent-phase code can actually free (or stack slots that escape)
+    conc = set()
+    for t in reach:
+        conc |= reach[t]
+    freeable = set()
+    for sid, uses in tr.set_use.items():
+        if any(kind == 'f' and fname in conc for fname, kind in uses):
+            for o, c in tr.cells_for_key(tr.set_keys[sid]):
+                freeable.add(o.oid)
+    for o in tr.objs:
+        if o.kind == 'heap':
+            o.dies = o.oid in freeable
+    cls = {}
+    for o in tr.objs:
+        for c in range(o.ncells):
+            cell = (o.oid, c)
+            w = writers.get(cell, set()) - {0}
+            r = readers.get(cell, set()) - {0}
+            if o.kind in ('heap', 'alloca') and not hasattr(o, 'snap'):
+                cls[cell] = 'shared'       # objects created during the concurrent phase
+            elif not w:
+                cls[cell] = 'ro'
+            elif len(w | r) == 1:
+                cls[cell] = ('excl', next(iter(w | r)))
+            else:
+                cls[cell] = 'shared'
+    tr.cell_class = cls
+    tr.setup_written = setup_written
+    tr.thread_reach = reach
 
 
 from ir2cell_gen import generate   # noqa: E402  (code generation lives in its own file)
